@@ -36,10 +36,10 @@ def matches_known(k, pid, line):
 def main():
     ap = argparse.ArgumentParser()
     ap.add_argument("pid")
-    ap.add_argument("--tier", default=os.environ.get("VERIF_TIER", "quick"))
+    ap.add_argument("--tier", default=None)
     ap.add_argument("--replay")
     args = ap.parse_args()
-    tier = os.environ.get("VERIF_TIER") or args.tier
+    tier = args.tier or os.environ.get("VERIF_TIER") or "quick"      # the command line wins over the environment
     if tier not in ("quick", "thorough"): tier = "quick"
     seed = int(os.environ.get("VERIF_SEED", "0") or 0)
     pid = args.pid
@@ -66,6 +66,7 @@ def main():
             lines = [l.strip() for l in open(cp) if l.strip() and not l.startswith("#")] + lines
         if not args.replay:
             r2 = random.Random(seed * 7919 + 13)
+            lines = lines + gen.relation_lines(lines, r2)
             lines = lines + gen.alias_lines(lines, r2) + gen.reuse_lines(lines, r2)
         seen, uniq = set(), []
         for l in lines:
@@ -82,77 +83,91 @@ def main():
                 raise fmlib.BuildError("model driver produced %d results for %d inputs: %s" % (len(mo), len(lines), err[-500:]))
             model_by_be[be] = mo
         model_out = model_by_be["std"]
-        legs = []
+        # 3. run every leg and compare it at once (only one leg's outputs are alive at a time) ----------
+        known = load_known()
+        diverge = []            # (line, leg, impl, model)
+        oracle_fail = []        # (line, leg, impl, why)
+        evals = 0
+        parsed = [suites.parse_line(l) for l in lines]
+        dom = [suite.in_domain(*p) for p in parsed]
+        nontriv = set(l for l, p, d in zip(lines, parsed, dom) if d and suite.nontrivial(*p))
+        hist = collections.Counter(p[0] for p, d in zip(parsed, dom) if d)
+        model_ub = sum(1 for m_, d in zip(model_out, dom) if d and m_.startswith("ub"))
+        oracle_cache = {}
+        post = getattr(suite, "post", None)
+        post_seen = set()
+        cross = getattr(suite, "cross_leg", False)
+        ref_out = {}            # C08: first value leg per sqrt back-end
+        ub_reports = []
+        legs = []               # (variant, compared, info)
         for v in variants:
             exe, info = fmlib.build_harness(v)
             if v.san:
                 sub = sample_for_ub(lines, suite, rng, tier)
                 idx = [i for i, _ in sub]
                 o, reports = fmlib.run_ub_leg(exe, [l for _, l in sub])
-                out = {i: oo for i, oo in zip(idx, o)}
-                legs.append((v, out, info, reports))
+                ub_reports += reports
             else:
+                idx = range(len(lines))
                 o, rc, err = fmlib.run_parallel(exe, lines)
                 if len(o) != len(lines):
                     o = o + ["crash"] * (len(lines) - len(o))
-                legs.append((v, dict(enumerate(o)), info, []))
+            mo_list = model_by_be.get(v.backend, model_out) if has_dflt else model_out
+            n_leg = 0
+            for i, io in zip(idx, o):
+                if not dom[i] or io == "skip" or io == "unknown": continue
+                n_leg += 1
+                if io != mo_list[i]:
+                    if len(diverge) < 200000: diverge.append((lines[i], v.name, io, mo_list[i]))
+                key = (i, io)
+                why = oracle_cache.get(key, 0)
+                if why == 0:
+                    r = suites.parse_out(io)
+                    why = ("the call did not return normally (%s)" % io) if r is None else suite.oracle(parsed[i][0], parsed[i][1], parsed[i][2], r)
+                    oracle_cache[key] = why
+                if why and len(oracle_fail) < 100000: oracle_fail.append((lines[i], v.name, io, why))
+            evals += n_leg
+            if not v.san:
+                # C08: a result that differs between two configurations selecting the same square-root algorithm is
+                # itself a violating input (the value depends on compiler / level / standard)
+                if cross:
+                    k = v.backend if has_dflt else "any"
+                    if k in ref_out:
+                        rn, ro = ref_out[k]
+                        for i, (x1, x2) in enumerate(zip(ro, o)):
+                            if x1 != x2 and dom[i] and x1 not in ("skip", "unknown") and x2 not in ("skip", "unknown"):
+                                oracle_fail.append((lines[i], v.name, x2, "the result depends on the configuration: %s gives %s, %s gives %s" % (rn, x1, v.name, x2)))
+                    else:
+                        ref_out[k] = (v.name, o)
+                # relations between results of different inputs (monotonicity, symmetry, periodicity, type agreement),
+                # once per distinct output vector
+                if post:
+                    hk = hash(tuple(o))
+                    if hk not in post_seen:
+                        post_seen.add(hk)
+                        res = {}
+                        for line, io in zip(lines, o):
+                            r = suites.parse_out(io)
+                            if r is not None: res[line] = r
+                        for line, why in post(res)[:50]:
+                            oracle_fail.append((line, v.name, "ok %s" % res.get(line), why))
+                        del res
+                # the same call with a literal and with a run-time argument must agree (a dispatch on
+                # __builtin_constant_p / constant folding makes one program see two functions)
+                pos = {l: i for i, l in enumerate(lines) if l.startswith("lit_")}
+                if pos:
+                    where = {l: i for i, l in enumerate(lines)}
+                    for l, i in pos.items():
+                        h, rest = l.split(" ", 1)
+                        base = h[4:] + " " + rest
+                        if h.startswith("lit_hypot1"): base = "hypot" + h[10:] + " " + rest + " 65536"
+                        j = where.get(base)
+                        if j is not None and o[i] != o[j] and o[i] not in ("skip", "unknown") and o[j] not in ("skip", "unknown"):
+                            oracle_fail.append((l, v.name, o[i], "the result depends on the call form: literal argument gives %s, the same value at run time gives %s" % (o[i], o[j])))
+            legs.append((v, n_leg, info))
+            del o
     except fmlib.BuildError as e:
         return finish(ev, pid, t0, [{"kind": "build", "what": str(e)[:4000]}], notes, None)
-
-    # 3. compare ------------------------------------------------------------------------------
-    known = load_known()
-    diverge = []            # (line, leg, impl, model)
-    oracle_fail = []        # (line, leg, impl, why)
-    evals = 0
-    nontriv = set()
-    hist = collections.Counter()
-    model_ub = 0
-    for i, line in enumerate(lines):
-        fn, tag, a = suites.parse_line(line)
-        if not suite.in_domain(fn, tag, a): continue
-        mo = model_out[i]
-        if mo.startswith("ub"): model_ub += 1
-        hist[fn] += 1
-        if suite.nontrivial(fn, tag, a): nontriv.add(line)
-        for v, out, info, reports in legs:
-            if i not in out: continue
-            io = out[i]
-            if io == "skip" or io == "unknown": continue
-            evals += 1
-            mo_leg = model_by_be.get(v.backend, model_out)[i] if has_dflt else mo
-            if io != mo_leg:
-                diverge.append((line, v.name, io, mo_leg))
-            r = suites.parse_out(io)
-            if r is None:
-                oracle_fail.append((line, v.name, io, "the call did not return normally (%s)" % io))
-            elif r != "nan" or True:
-                why = suite.oracle(fn, tag, a, r)
-                if why: oracle_fail.append((line, v.name, io, why))
-    # C08: a result that differs between two configurations selecting the same square-root algorithm is itself a
-    # violating input (the value depends on compiler / level / standard)
-    if getattr(suite, "cross_leg", False):
-        for i, line in enumerate(lines):
-            seen_cfg = {}
-            for v, out, info, reports in legs:
-                if v.san or i not in out or out[i] in ("skip", "unknown"): continue
-                key = v.backend if has_dflt else "any"
-                if key in seen_cfg and seen_cfg[key][1] != out[i]:
-                    oracle_fail.append((line, v.name, out[i], "the result depends on the configuration: %s gives %s, %s gives %s" % (seen_cfg[key][0], seen_cfg[key][1], v.name, out[i])))
-                    break
-                seen_cfg.setdefault(key, (v.name, out[i]))
-    ub_reports = [r for v, out, info, reports in legs for r in reports]
-    # relations between results of different inputs (monotonicity, symmetry, periodicity, type agreement)
-    post = getattr(suite, "post", None)
-    if post:
-        for v, out, info, reports in legs:
-            if v.san: continue
-            res = {}
-            for i, line in enumerate(lines):
-                if i in out:
-                    r = suites.parse_out(out[i])
-                    if r is not None: res[line] = r
-            for line, why in post(res)[:50]:
-                oracle_fail.append((line, v.name, "ok %s" % res.get(line), why))
 
     # constant-evaluation leg (C08): the model's value must be accepted as a constant expression
     ce_stats = None
@@ -204,7 +219,7 @@ def main():
                    "non-trivial = " + (suite.nontrivial.__doc__ or "input exercises an overflow/NaN/boundary branch per the suite's predicate"))
     cov["samples"] = lines[:3] + [l for l in lines if l in nontriv][:5]
     cov["function_histogram"] = dict(hist)
-    cov["legs"] = [{"variant": v.name, "detail_wrappers": info.get("detail", True), "compared": len(out)} for v, out, info, _ in legs]
+    cov["legs"] = [{"variant": v.name, "detail_wrappers": info.get("detail", True), "compared": n_, "sqrt_backend": v.backend} for v, n_, info in legs]
     cov["divergences"] = len(diverge)
     cov["model_ub_results"] = model_ub
     cov["ub_reports"] = ub_reports[:5]
@@ -215,9 +230,9 @@ def main():
     return finish(ev, pid, t0, violations, notes, lean)
 
 def suite_variants(suite, tier):
-    from fmlib import V_DEFAULT, V_ABACUS, V_CLANG20, V_SAN, V_SAN_ABACUS, V_REL
+    from fmlib import V_DEFAULT, V_ABACUS, V_CLANG20, V_SAN, V_SAN_ABACUS, V_REL, V_SIZE, V_SAN_O1
     if tier == "quick":
-        vs = [V_DEFAULT, V_CLANG20, V_REL, V_SAN]
+        vs = [V_DEFAULT, V_CLANG20, V_REL, V_SIZE, V_SAN]
         if suite.needs_abacus_leg: vs += [V_ABACUS]
         return vs
     vs = []
@@ -226,8 +241,9 @@ def suite_variants(suite, tier):
             for opt in ("-O0", "-O1", "-O2", "-O3"):
                 vs.append(Variant(cxx, std, opt, abacus=False))
                 if suite.needs_abacus_leg or opt in ("-O2",): vs.append(Variant(cxx, std, opt, abacus=True))
-    vs += [V_REL, Variant("g++", "c++2b", "-O3", extra=("-DNDEBUG", "-funsigned-char"), label="rel")]
-    vs += [V_SAN, V_SAN_ABACUS, Variant("clang++-14", "c++20", "-O1", san=True)]
+    vs += [V_REL, Variant("g++", "c++2b", "-O3", extra=("-DNDEBUG", "-funsigned-char"), label="rel"), V_SIZE,
+           Variant("clang++-14", "gnu++17", "-Os", label="size"), Variant("g++", "gnu++17", "-Og", label="dbg"), Variant("clang++-14", "c++2b", "-Oz", label="size")]
+    vs += [V_SAN, V_SAN_O1, V_SAN_ABACUS, Variant("clang++-14", "c++20", "-O1", san=True), V_ABACUS]
     return vs
 
 def sample_for_ub(lines, suite, rng, tier):
@@ -297,7 +313,7 @@ def neighbour_search(suite, diverge, legs, rng, tier):
     for line, leg, io, mo in diverge: by_leg[leg].append(line)
     budget = 40000 if tier == "quick" else 400000
     found = []
-    for v, out, info, reports in legs:
+    for v, n_, info in legs:
         if v.san or v.name not in by_leg: continue
         src = by_leg[v.name]; rng.shuffle(src)
         cand, seen = [], set()
